@@ -23,39 +23,52 @@ def pTrips : P (List (Nat × Nat × K)) := do
     l := l.push (r, c, v)
   pure l.toList
 
+def opsLoop (s0 : Sp K) (nops : Nat) (out0 : String) : P String := do
+  let mut s := s0
+  let mut out := out0
+  for _ in [0:nops] do
+    let op ← tok
+    let (s', o) ← (match op with
+      | "insert" => do
+        let i ← pNat; let j ← pNat; let v : K ← Wire.rd
+        match Sp.insert s i j v with
+        | .ok s' => pure (s', "ok")
+        | .error e => pure (s, "!" ++ toString e)
+      | "scale" => do
+        let a : K ← Wire.rd
+        match Sp.scale s a with
+        | .ok s' => pure (s', "ok")
+        | .error e => pure (s, "!" ++ toString e)
+      | "transpose" =>
+        match Sp.transpose s with
+        | .ok s' => pure (s', "ok")
+        | .error e => pure (s, "!" ++ toString e)
+      | "get" => do
+        let i ← pNat; let j ← pNat
+        pure (s, outcome ((Sp.get s i j).map wOpt))
+      | _ => throw s!"unknown sparse op {op}" : P (Sp K × String))
+    s := s'
+    out := out ++ s!" ; {op} {o} | {dump s} | {views s (s.rows / 2) (s.cols / 2)}"
+  pure out
+
 def hist : P String := do
   let rows ← pNat; let cols ← pNat
   let trips : List (Nat × Nat × K) ← pTrips
   let nops ← pNat
   match Sp.fromTriplets rows cols trips with
   | .error e => pure ("!" ++ toString e)
-  | .ok s0 =>
-    let mut s := s0
-    let mut out := s!"{dump s} | {views s (rows / 2) (cols / 2)}"
-    for _ in [0:nops] do
-      let op ← tok
-      let (s', o) ← (match op with
-        | "insert" => do
-          let i ← pNat; let j ← pNat; let v : K ← Wire.rd
-          match Sp.insert s i j v with
-          | .ok s' => pure (s', "ok")
-          | .error e => pure (s, "!" ++ toString e)
-        | "scale" => do
-          let a : K ← Wire.rd
-          match Sp.scale s a with
-          | .ok s' => pure (s', "ok")
-          | .error e => pure (s, "!" ++ toString e)
-        | "transpose" =>
-          match Sp.transpose s with
-          | .ok s' => pure (s', "ok")
-          | .error e => pure (s, "!" ++ toString e)
-        | "get" => do
-          let i ← pNat; let j ← pNat
-          pure (s, outcome ((Sp.get s i j).map wOpt))
-        | _ => throw s!"unknown sparse op {op}" : P (Sp K × String))
-      s := s'
-      out := out ++ s!" ; {op} {o} | {dump s} | {views s (s.rows / 2) (s.cols / 2)}"
-    pure out
+  | .ok s0 => opsLoop s0 nops s!"{dump s0} | {views s0 (rows / 2) (cols / 2)}"
+
+/-- raw compressed-column arrays followed by a history of operations -/
+def vhist : P String := do
+  let rows ← pNat; let cols ← pNat
+  let val : Array K ← pArr
+  let ri : Array Nat ← pArr
+  let cs : Array Nat ← pArr
+  let nops ← pNat
+  match Sp.fromVecs rows cols val ri cs with
+  | .error e => pure ("!" ++ toString e)
+  | .ok s0 => opsLoop s0 nops s!"{dump s0} | {views s0 (rows / 2) (cols / 2)}"
 
 def fromVecs : P String := do
   let rows ← pNat; let cols ← pNat
@@ -90,6 +103,7 @@ def exec (op : String) : P (Option String) := do
     if tag == "q" then f Rat else f Float
   match op with
   | "sp_hist" => let tag ← tok; some <$> two tag (fun K _ => hist (K := K))
+  | "sp_vhist" => let tag ← tok; some <$> two tag (fun K _ => vhist (K := K))
   | "sp_vecs" => let tag ← tok; some <$> two tag (fun K _ => fromVecs (K := K))
   | "sp_prod" => let tag ← tok; some <$> two tag (fun K _ => products (K := K))
   | _ => pure none
